@@ -1,3 +1,4 @@
 import Rp2.Props.C20
 #print axioms Rp2.C20.sheets_and_chain
 #print axioms Rp2.C20.years_sorted_once
+#print axioms Rp2.C20.sheet_rows_each_once
